@@ -71,3 +71,47 @@ func VerifH_ReplicaAcksAllowance() {
 		verifrt.Reach("not allowed")
 	}
 }
+
+// VerifH_ReplicaAllowCommit: replica side of the allowance. The primary says "commit up to
+// (txID, alh)". The real db.AllowCommitUpto lets the store commit up to txID only if the
+// replica's own transaction txID has exactly that accumulated hash (header fields symbolic; real
+// Alh code); when txID is the replica's committed transaction, the committed Alh must match.
+// A non-replica refuses.
+func VerifH_ReplicaAllowCommit() {
+	local := &store.TxHeader{ID: verifrt.U64("txID"), Ts: verifrt.I64("ts"), BlTxID: verifrt.U64("blTxID"), BlRoot: verifrt.Digest("blRoot"),
+		PrevAlh: verifrt.Digest("prevAlh"), Version: verifrt.Param("version"), NEntries: int(verifrt.U16("nentries")), Eh: verifrt.Digest("eh")}
+	committedID, committedAlh := verifrt.U64("committedID"), verifrt.Digest("committedAlh")
+	var allowed []uint64
+	verifrt.Stub("(*embedded/store.ImmuStore).AllowCommitUpto", func(s *store.ImmuStore, txID uint64) error {
+		allowed = append(allowed, txID)
+		return nil
+	})
+	verifrt.Stub("(*embedded/store.ImmuStore).CommittedAlh", func(s *store.ImmuStore) (uint64, [32]byte) { return committedID, committedAlh })
+	verifrt.Stub("(*embedded/store.ImmuStore).ReadTxHeader", func(s *store.ImmuStore, txID uint64, allowPrecommitted bool, skipIntegrityCheck bool) (*store.TxHeader, error) {
+		if txID != local.ID || !allowPrecommitted {
+			return nil, store.ErrTxNotFound
+		}
+		return local, nil
+	})
+	replica := verifrt.Bool("replica")
+	d := &db{st: &store.ImmuStore{}, options: &Options{replica: replica}, mutex: &instrumentedRWMutex{}}
+	txID, alh := verifrt.U64("askedTxID"), verifrt.Digest("askedAlh")
+	err := d.AllowCommitUpto(txID, alh)
+	if !replica {
+		verifrt.Assert(err != nil && len(allowed) == 0, "a primary refuses")
+		verifrt.Reach("not a replica")
+		return
+	}
+	if len(allowed) > 0 {
+		verifrt.Assert(err == nil && len(allowed) == 1 && allowed[0] == txID, "store allowance is for the asked transaction")
+		verifrt.Assert(txID == local.ID && local.Alh() == alh, "the replica's own transaction has the primary's accumulated hash")
+		verifrt.Reach("allowed")
+		return
+	}
+	if err == nil {
+		verifrt.Assert(txID == committedID && committedAlh == alh, "nothing to do only when already committed with the same state")
+		verifrt.Reach("already committed")
+		return
+	}
+	verifrt.Reach("refused")
+}
